@@ -341,4 +341,4 @@ def run_query(c, w, p):
 
 def stages(tier):
     return [HypStage("queries", lambda t: cases(t), run_case, {"quick": 300, "thorough": 8000},
-                     budget_s={"quick": 100, "thorough": 900})]
+                     budget_s={"quick": 300, "thorough": 900})]
